@@ -57,7 +57,7 @@ class PathState:
         for p in pl['p']:
             k = p['k']
             if k == 'deref':
-                if e[0] == 'ref':
+                if e[0] in ('ref', 'refm'):
                     e = e[1]
                 elif e[0] == 'refl':
                     e = self.env.get(e[1], ('unknown', 'undef _%d' % e[1]))
@@ -115,7 +115,7 @@ class PathState:
                 inner = self.env.get(pl['l'])
                 if inner is not None and inner[0] == 'refl':
                     return ('refl', inner[1], inner[2] and rv.get('mut', False))
-            return ('ref', self.place(pl))
+            return ('refm' if rv.get('mut') else 'ref', self.place(pl))
         if k == 'discr':
             return ('discr', self.place(rv['place']))
         if k == 'agg':
@@ -172,7 +172,7 @@ class PathState:
             return ('via', e[1], self.deep(e[2], depth + 1))
         if e[0] == 'cast':
             return ('cast', self.deep(e[1], depth + 1), e[2])
-        if e[0] in ('ref', 'deref'):
+        if e[0] in ('ref', 'deref', 'refm'):
             return (e[0], self.deep(e[1], depth + 1))
         return e
 
@@ -222,6 +222,17 @@ def root_mut_local(e):
         e = e[1]
     if e[0] == 'refl' and e[2]:
         return e[1]
+    if e[0] == 'refm':
+        x = e[1]
+        for _ in range(20):
+            if x[0] in ('deref', 'ref', 'refm', 'cast'):
+                x = x[1]
+            elif x[0] == 'via':
+                x = x[2]
+            elif x[0] == 'refl':
+                return x[1]
+            else:
+                return None
     return None
 
 
@@ -232,7 +243,7 @@ def strip(e):
     while True:
         if e[0] == 'via':
             e = e[2]
-        elif e[0] in ('ref', 'deref'):
+        elif e[0] in ('ref', 'deref', 'refm'):
             e = e[1]
         elif e[0] == 'refl':
             return e
@@ -274,7 +285,7 @@ def show(e, depth=0):
         return '%s(%s)' % (e[1], show(e[2], depth + 1))
     if k == 'field':
         return '%s.%s' % (show(e[1], depth + 1), e[2])
-    if k in ('ref', 'deref', 'discr'):
+    if k in ('ref', 'deref', 'discr', 'refm'):
         return '%s(%s)' % (k, show(e[1], depth + 1))
     if k == 'agg':
         return '%s::%s(%s)' % (e[1], e[2], ', '.join(show(a, depth + 1) for a in e[3]))
